@@ -775,22 +775,23 @@ class Result(JsonSerializable):
                        update_type_code=d['update_type_code'],
                        accumulate_values=d['accumulate_values_bool'],
                        choice_num=len(values))  # type: ignore
-
-            for i, v in enumerate(values):
-                for _ in range(v):
-                    r.update(i)
-
+            r._value = np.array(values, dtype=int)
         else:
-            r = Result.create(name=d['name'],
-                              update_type=d['update_type_code'],
-                              value=d['value'],
-                              total=d['total'],
-                              accumulate_values=d['accumulate_values_bool'])
-            r._value_list = d['value_list']
-            r._total_list = d['total_list']
-            r.num_updates = d['num_updates']
-            r._result_sum = d['result_sum']
-            r._result_squared_sum = d['result_squared_sum']
+            r = Result(name=d['name'],
+                       update_type_code=d['update_type_code'],
+                       accumulate_values=d['accumulate_values_bool'])
+            r._value = d['value']
+
+        # Restore the stored state directly. Replaying `update` calls would
+        # fail for a never updated RATIOTYPE result (division by zero) and
+        # would lose the order of the accumulated values of a CHOICETYPE
+        # result.
+        r._total = d['total']
+        r._value_list = d['value_list']
+        r._total_list = d['total_list']
+        r.num_updates = d['num_updates']
+        r._result_sum = d['result_sum']
+        r._result_squared_sum = d['result_squared_sum']
         return r
 
 
